@@ -45,7 +45,7 @@ ASSUME = ["refs/kfref.py (textbook Kalman equations, scaled unscented transform 
           "F P F^T (without Q) while the prior covariance is F P F^T + Q (what the unchanged resample=False path computes)",
           "numpy cholesky/eigvalsh/solve are trusted; rounding bounds are first order with calibrated constant C_TOL"]
 SHARDS = {"quick": 4, "thorough": 16}
-BUDGET_S = {"quick": 80, "thorough": 900}
+BUDGET_S = {"quick": 80, "thorough": 540}
 DECIDING = ["weights_sum_one", "pred_eq_kf", "post_eq_kf", "post_eq_noredraw", "post_identity", "post_le_prior", "cov_sym_psd",
             "noobs_mean", "result_roundtrip"]
 MANIFEST = {"technique": "runtime monitoring: real UnscentedKalmanFilter on stub linear systems, lock-step comparison with a textbook Kalman filter",
